@@ -54,6 +54,10 @@ FLAGS = {
     "chmod": ["chmod"],
     "checksum": ["sha1sum"],
     "resolve": ["readlink", "-f"],
+    "glob": ["test", "-e", "printf"],
+    "write_text": ["tee"],
+    "read_text": ["cat", "head"],
+    "size": ["find"],
 }
 
 
@@ -141,6 +145,25 @@ def r3(ctx):
             instance=f"{name}:flags",
             message=f"{name} no longer issues {missing} (constant words: {sorted(words)})",
         )
+    # every non-delegating path of an operation issues its command (no silent short cut)
+    for name in FLAGS:
+        if name == "resolve":
+            continue  # answered from the data-location registry first (symbolic links known to the engine); the command is the fall-back
+        f = c.methods[name]
+        g = f.cfg
+        sink_ids = set()
+        for call, _cmd in command_sinks(f):
+            sink_ids.update(g.node_containing(call))
+        tests = [n for n in g.nodes.values() if n.kind == "test" and "_get_inner_path" in n.text(200)]
+        starts = [b for t in tests for b in g.real_succ(t.id, "f")] or [g.entry]
+        esc = None
+        for b in starts:
+            if b in sink_ids:
+                continue
+            esc = esc or g.path(b, [g.exit], avoid=sink_ids)
+        ctx.ob("R3", f"{name}: every path on the remote side issues the command", esc is None, func=f, node=f.node, instance=f"{name}:always-issues",
+               message=f"{name} can return without issuing its remote command (a short cut that the local filesystem operation does not have)",
+               witness=g.describe(esc) if esc else [])
     # mkdir: -p exactly when parents or exist_ok
     f = c.methods["mkdir"]
     ok = False
@@ -232,8 +255,42 @@ def r4(ctx):
             )
 
 
-RULES = [("R1", r1), ("R2", r2), ("R3", r3), ("R4", r4)]
-FLOORS = {"R1": 18, "R2": 2, "R3": 14, "R4": 14}
+def r5(ctx):
+    """Numeric parsing of command output is guarded: every int()/float() of text that comes from a remote command is
+    protected by an isdigit()/isnumeric() test or a ValueError handler (stderr is merged into stdout on some connectors)."""
+    p = ctx.prog
+    from ..model import ancestors as _anc
+
+    funcs = _methods(ctx) + [p.func(f"{MOD}._size")]
+    n = 0
+    for f in funcs:
+        outs = set()
+        for x in f.body_nodes():
+            if isinstance(x, ast.Assign) and isinstance(x.targets[0], (ast.Tuple, ast.List)) and any(
+                    isinstance(y, ast.Call) and isinstance(y.func, ast.Attribute) and y.func.attr == "run" for y in ast.walk(x.value)):
+                if isinstance(x.targets[0].elts[0], ast.Name):
+                    outs.add(x.targets[0].elts[0].id)
+        if not outs:
+            continue
+        for c in f.calls():
+            if isinstance(c.func, ast.Name) and c.func.id in ("int", "float") and c.args and any(isinstance(y, ast.Name) and y.id in outs for y in ast.walk(c.args[0])):
+                n += 1
+                guarded = False
+                par = getattr(c, "_parent", None)
+                if isinstance(par, ast.IfExp) and par.body is c and ("isdigit()" in unparse(par.test) or "isnumeric()" in unparse(par.test) or "isdecimal()" in unparse(par.test)):
+                    guarded = True
+                for a in _anc(c):
+                    if isinstance(a, ast.If) and ("isdigit()" in unparse(a.test) or "isnumeric()" in unparse(a.test)):
+                        guarded = True
+                    if isinstance(a, ast.Try) and any(h.type is None or "ValueError" in unparse(h.type) or unparse(h.type) in ("Exception",) for h in a.handlers):
+                        guarded = True
+                ctx.ob("R5", f"{f.name}: `{unparse(c)[:40]}` on command output is guarded", guarded, func=f, node=c, instance=f"{f.name}:numeric-parse",
+                       message=f"{f.name}: `{unparse(c)[:60]}` parses raw command output without an isdigit()/ValueError guard: a diagnostic line in the output raises ValueError in the caller")
+    ctx.require(n >= 2, f"C24.R5: only {n} numeric parses of command output found")
+
+
+RULES = [("R1", r1), ("R2", r2), ("R3", r3), ("R4", r4), ("R5", r5)]
+FLOORS = {"R1": 18, "R2": 2, "R3": 28, "R4": 14, "R5": 2}
 
 VARIANTS = [
     V("exists: quote removed", FILE, f"{CLS}.exists", "shlex.quote(self.__str__())", "self.__str__()", "R1", control=True),
@@ -262,6 +319,9 @@ VARIANTS = [
     V("chmod delegation drops follow_symlinks", FILE, f"{CLS}.chmod", "inner_path.chmod(mode, follow_symlinks=follow_symlinks)", "inner_path.chmod(mode)", "R4", control=True),
     V("is_dir delegates to exists", FILE, f"{CLS}.is_dir", "inner_path.is_dir()", "inner_path.exists()", "R4"),
     V("mkdir delegation drops exist_ok", FILE, f"{CLS}.mkdir", "parents=parents, exist_ok=exist_ok)", "parents=parents)", "R4"),
+    V("write_text skips empty content", FILE, f"{CLS}.write_text", "if not isinstance(data, str):", "if not data:\n            return 0\n        if not isinstance(data, str):", "R3"),
+    V("glob guard tests for a regular file", FILE, f"{CLS}.glob", "'-e'", "'-f'", "R3"),
+    V("_size parses unguarded", FILE, f"{MOD}._size", "int(result) if result.isdigit() else 0", "int(result or 0)", "R5"),
     # benign
     V("exists: quote into a local first", FILE, f"{CLS}.exists", "return await self._test(command=['-e', shlex.quote(self.__str__())])", "q = shlex.quote(str(self))\n        return await self._test(command=['-e', q])", None),
     V("read_text: keeps the content verbatim (repair of the known finding)", FILE, f"{CLS}.read_text", "return result.strip()", "return result", None),
